@@ -102,7 +102,7 @@ def check(pid, tier, seed, a):
     P = props.PROPS[pid]
     for m in P.get("modules", []):
         importlib.import_module(m)
-    timeout = int(os.environ.get("HDCV_TIMEOUT_MS", "30000")) * (3 if tier == "thorough" else 1)
+    timeout = int(os.environ.get("HDCV_TIMEOUT_MS", "15000")) * (3 if tier == "thorough" else 1)
 
     # ---------------------------------------------------------------- deductive part
     results = []
@@ -112,11 +112,10 @@ def check(pid, tier, seed, a):
         if "@" in key:
             key, variant = key.split("@")
         c = spec.REGISTRY[(key, variant)]
-        r = verify.verify_function(c)
+        r = verify.verify_portfolio(c)
         results.append(r)
         if r.ctx is not None:
             for o in r.ctx.obls:
-                o.axioms = list(r.ctx.axioms)
                 o.func = c.short
                 if r.error is None:
                     obls.append(o)
